@@ -381,6 +381,39 @@ def oracle(case):
     return True, "ok"
 
 
+def shrink(case):
+    """smallest sub-antecedent (minimal writing, one row) on which the property oracle still fails"""
+    best = case
+    budget = 120
+    improved = True
+    ov = [v for v in case["vars"] if v["out"]][0]
+    tail = f" then {ov['name']} is {ov['terms'][0][0]}" + (f" with {case['weight']}" if case["weight"] != 1.0 else "")
+
+    def with_tree(c, t, rows):
+        return dict(c, tree=t, rows=rows, style="min", text="if " + " ".join(awriting(t, 0, 0)) + tail)
+    while improved and budget > 0:
+        improved = False
+        t = best["tree"]
+        cands = [with_tree(best, t, [r]) for r in best["rows"]] if len(best["rows"]) > 1 else []
+        cands += [with_tree(best, t, best["rows"])]
+        if t[0] in ("and", "or"):
+            cands += [with_tree(best, t[1], best["rows"]), with_tree(best, t[2], best["rows"])]
+        elif t[2]:
+            cands += [with_tree(best, [t[0], t[1], t[2][1:]] + t[3:], best["rows"])]
+        for cand in cands:
+            budget -= 1
+            if cand["text"] == best["text"] and cand["rows"] == best["rows"]:
+                continue
+            try:
+                ok, _ = oracle(cand)
+            except Exception:  # noqa: BLE001
+                ok = True
+            if not ok:
+                best, improved = cand, True
+                break
+    return best
+
+
 # ------------------------------------------------------------------------------------------------ model side
 def var_sx(v):
     terms = [[C.hexs(n), cls, [float(p) for p in ps], float(h)] for n, cls, ps, h in v["terms"]]
@@ -465,14 +498,17 @@ def correspond(ctx):
                  json.dumps(case["rows"], sort_keys=True)), nt,
                 sample={"text": case["text"], "conj": case["conj"], "disj": case["disj"], "rows": case["rows"][:1],
                         "impl": r["degrees"], "model": o[-120:]} if nt else None)
-        if bad:
-            mism.append({"case": case, "impl": {k: r[k] for k in ("load", "postfix", "degrees", "batch")}, "model": o[:300],
-                         "what": bad})
-        elif idx % 2 == 0:
+        if bad or idx % 2 == 0:
             ok, detail = oracle(case)
             st.count("oracle")
             if not ok:
-                mism.append({"case": case, "violation": True, "detail": detail, "what": detail})
+                small = shrink(case)
+                ok2, detail2 = oracle(small)
+                mism.append({"case": small if not ok2 else case, "violation": True,
+                             "detail": detail2 if not ok2 else detail, "what": bad or (detail2 if not ok2 else detail)})
+            elif bad:
+                mism.append({"case": case, "impl": {k: r[k] for k in ("load", "postfix", "degrees", "batch")},
+                             "model": o[:300], "what": bad})
         if len(mism) > 25:
             break
     return mism
